@@ -3365,6 +3365,13 @@ func (a *Association) createForwardTSN() *chunkForwardTSN {
 			break
 		}
 
+		// Only ordered messages are reported per stream (RFC 3758 sec 3.2): an
+		// unordered chunk does not consume an SSN, the value it carries is the
+		// SSN of the next ordered message on that stream.
+		if c.unordered {
+			continue
+		}
+
 		ssn, ok := streamMap[c.streamIdentifier]
 		if !ok {
 			streamMap[c.streamIdentifier] = c.streamSequenceNumber
